@@ -221,14 +221,22 @@ def start_captured(ctx):
     ctx.check(bool(rs) and sl_ is not None and sc_ is not None and not reassigned and P.has(rs[0], "{**$_, 'lineno': %s, 'pos': %s}" % (sl_, sc_)), "scan.raise-start", db.where(rs[0]) if rs else db.where(put), "an unterminated construct is reported where the scan gave up, not where it began", "raises with the saved start")
     for q, opener in (("lexer.Lexer.match_python_block", "<%"), ("lexer.Lexer.match_expression", "${")):
         fn = db.func(q)
-        sv = [s for s in walk_func(fn) if isinstance(s, ast.Assign) and src(s.value).replace(" ", "") in ("(self.matched_lineno,self.matched_charpos)", "self.matched_lineno,self.matched_charpos")]
+        # locals that hold the lexer's position, saved before the scan for the end of the construct starts
         sc = calls(fn, "self.parse_until_text")
-        ok = bool(sv) and bool(sc) and sv[0].lineno < sc[0].lineno
+        saved = {}
+        for s in walk_func(fn):
+            if isinstance(s, ast.Assign) and len(s.targets) == 1:
+                pairs = list(zip(s.targets[0].elts, s.value.elts)) if isinstance(s.targets[0], ast.Tuple) and isinstance(s.value, ast.Tuple) and len(s.targets[0].elts) == len(s.value.elts) else [(s.targets[0], s.value)]
+                for t_, v_ in pairs:
+                    if isinstance(t_, ast.Name) and src(v_) in ("self.matched_lineno", "self.matched_charpos") and sc and s.lineno < sc[0].lineno:
+                        saved[t_.id] = src(v_)
+        restored = {n_.id for n_ in walk_func(fn) if isinstance(n_, ast.Name) and isinstance(n_.ctx, ast.Store) and n_.id in saved}
+        n_stores = {k_: sum(1 for n_ in walk_func(fn) if isinstance(n_, ast.Name) and isinstance(n_.ctx, ast.Store) and n_.id == k_) for k_ in saved}
+        ok = set(saved.values()) == {"self.matched_lineno", "self.matched_charpos"} and all(v_ == 1 for v_ in n_stores.values())
         ctx.check(ok, "open-position:" + q.split(".")[-1], db.where(fn), "the position of %s is not captured before the scan for its end" % opener, "line/pos of the opening token saved first")
         ap = calls(fn, "self.append_node")
         kw = {k.arg: src(k.value) for k in ap[0].keywords} if ap else {}
-        names = [src(x) for x in sv[0].targets[0].elts] if sv and isinstance(sv[0].targets[0], ast.Tuple) else []
-        ctx.check(len(names) == 2 and kw.get("lineno") == names[0] and kw.get("pos") == names[1], "node-at-open:" + q.split(".")[-1], db.where(ap[0]) if ap else db.where(fn), "the node is created at %s instead of the opening token's position" % kw, "node created with the saved position")
+        ctx.check(saved.get(kw.get("lineno")) == "self.matched_lineno" and saved.get(kw.get("pos")) == "self.matched_charpos", "node-at-open:" + q.split(".")[-1], db.where(ap[0]) if ap else db.where(fn), "the node is created at %s instead of the opening token's position" % kw, "node created with the saved position")
     ps = db.func("lexer.Lexer.parse")
     t = src(ps)
     ctx.check("self.control_line[-1].lineno" in t and "self.control_line[-1].pos" in t, "unterminated-control", db.where(ps), "an unterminated control keyword is not reported at the line that opened it", "reported at the opening control line")
